@@ -37,7 +37,13 @@ func newLocalFile(path string, relPath string, info os.FileInfo) (f *localFile, 
 		if linkedPath, err = os.Readlink(path); err != nil {
 			return
 		}
-		if f.info, err = os.Stat(linkedPath); err != nil {
+		target := linkedPath
+		if !filepath.IsAbs(target) {
+			// A relative link is relative to the directory it is in, not to
+			// wherever this process happens to run
+			target = filepath.Join(filepath.Dir(path), target)
+		}
+		if f.info, err = os.Stat(target); err != nil {
 			return
 		}
 		if f.info.IsDir() {
@@ -220,6 +226,12 @@ func (dir *Local) handleNode(path string, info os.FileInfo, err error) error {
 	var file *localFile
 	if file, err = newLocalFile(path, relPath, info); err != nil {
 		if err == filepath.SkipDir {
+			return nil
+		}
+		if os.IsNotExist(err) {
+			// A link whose target is gone, or a file that vanished since the
+			// directory was read: nothing to send and no reason to stop the scan
+			dir.debug("Local Path Vanished:", path)
 			return nil
 		}
 		return err
